@@ -52,6 +52,8 @@ def gen_world(rng):
     knobs = {"threads": rng.randrange(1, 5), "config_arg": rng.choice(["rel", "abs"])}
     if len(wm["files"]) > 30 and rng.random() < 0.7:
         knobs["nofile"] = 16      # see scen.env_knobs
+    if rng.random() < 0.08:
+        knobs["jitter_us"] = rng.choice([300, 2000, 5000])      # see scen.env_knobs
     return wm, knobs
 
 
